@@ -35,7 +35,7 @@ def run_tests(repo):
 
 
 def run_check(prop, repo, seed=0, work_tag=''):
-    env = dict(os.environ, VERIF_REPO=repo, VERIF_SEED=str(seed))
+    env = dict(os.environ, VERIF_REPO=repo, VERIF_SEED=os.environ.get('VERIF_SEED', str(seed)))
     t0 = time.time()
     r = subprocess.run([PY, '-B', '-m', 'rv.runner', prop, '--tier', 'quick'], cwd=VERIF, env=env,
                        capture_output=True, text=True, timeout=1800)
